@@ -29,7 +29,7 @@ func sortedOutputProblems(e *Eco, in []string, out []string, outVals []any) (str
 
 func checkC07(ctx *Ctx) {
 	res := ctx.Res
-	res.Rule = "per ecosystem: lists of 1..64 accepted versions drawn from a pool with duplicates and Compare-equal respellings; each list is sorted (a) with slices.SortFunc and the ecosystem's Compare as the documented idiom does and (b) by the CLI 'sort' command (run(w,args) in-process through the verif hook, plus a sample of real process executions); every permutation of lists of length <= 6 and 6 random permutations of longer ones. Checked: output multiset equals the input strings (String() of each input), adjacent pairs non-decreasing, the sequence of equivalence classes identical across permutations; a list with an invalid element makes the CLI exit 1 with a diagnostic that names the first invalid element and prints no result. non-trivial = distinct (list, permutation) cases with at least two Compare-distinct elements"
+	res.Rule = "per ecosystem: lists of 1..64 accepted versions drawn from a pool with duplicates and Compare-equal respellings (a quarter of the lists are windows of the pool in generation order: variants of one text); each list is sorted (a) with slices.SortFunc and the ecosystem's Compare as the documented idiom does and (b) by the CLI 'sort' command (run(w,args) in-process through the verif hook, plus a sample of real process executions); every permutation of lists of length <= 6 and 6 random permutations of longer ones. Checked: String() of each parsed input is the input text up to outer white space, the output multiset equals those strings, adjacent pairs non-decreasing, the sequence of equivalence classes identical across permutations; a list with an invalid element makes the CLI exit 1 with a diagnostic that names the first invalid element and prints no result. non-trivial = distinct (list, permutation) cases with at least two Compare-distinct elements"
 	nLists := 40
 	if !ctx.Quick {
 		nLists = 600
@@ -92,6 +92,13 @@ func checkC07(ctx *Ctx) {
 				n = r.Range(2, 6)
 			}
 			var list []string
+			// family lists: a window of the pool in generation order — spelling variants, prefix
+			// siblings and boundary neighbours of one text are generated next to each other, so a
+			// window holds versions that differ in one token only
+			if li%4 == 1 && len(p.Strs) > n {
+				st := r.Intn(len(p.Strs) - n + 1)
+				list = append(list, p.Strs[st:st+n]...)
+			}
 			for len(list) < n {
 				switch {
 				case len(list) > 0 && r.Chance(15):
@@ -115,6 +122,11 @@ func checkC07(ctx *Ctx) {
 				}
 				vals[i] = pr.Val
 				strs[i], _ = e.Str(pr.Val)
+				// "outputs exactly the input strings": what sort prints for an input is String() of
+				// the parsed value, which must be the input text (up to outer white space, C18)
+				if strings.TrimSpace(strs[i]) != strings.TrimSpace(s) {
+					res.violate(Violation{Eco: e.Name, Kind: "sort-output-not-input-text", Input: []string{s}, Expected: fmt.Sprintf("sort prints the input string %q back", strings.TrimSpace(s)), Actual: fmt.Sprintf("%q", strs[i])})
+				}
 			}
 			if !ok {
 				continue
